@@ -4,7 +4,7 @@ import StraxModel.Model.Rechunk
   `source = level 0 → level 1 → … → level n`, every plugin row-wise with ONE dependency:
 
   * `strax/run_selection.py: define_run`      → `dedup`, `defineRun` (dict de-duplication, stable sort by run start)
-  * `strax/storage/common.py: DataKey._run_id` → `superrunKey` (run name, H(sorted subrun spec, combining))
+  * `strax/storage/common.py: DataKey._run_id` → `superrunKey` (run name, H(sub_run_spec items sorted by id, each with its selection; combining))
   * `strax/context.py: get_components.check_cache` (superrun branch) → `descend`, `concatLoader`, `superGet`
   * `strax/plugins/plugin.py: Plugin.iter / do_compute / superrun_transformation` for one dependency
                                                → `iterStep`, `pluginIter`, `pluginRun`, `compute`
@@ -59,8 +59,17 @@ the hash: any function into any type `κ` — the theorems that need it assume i
 never an axiom); the driver instantiates it with an injective printing. -/
 abbrev Key (κ : Type) := String × κ
 
-def superrunKey {κ : Type} (H : List String → Bool → κ) (name : String) (spec : List String) (combining : Bool) : Key κ :=
-  (name, H (sortIds spec) combining)
+/-- the per-subrun selection of a `sub_run_spec`: run id ↦ `[start, end]` time window; a run that is not listed is
+taken whole (`"all"`) -/
+abbrev Sel := List (String × (Int × Int))
+
+/-- the items of the `sub_run_spec` dict as `hashablize` sees them: sorted by run id, each with its selection -/
+def tagged (sel : Sel) (spec : List String) : List (String × Option (Int × Int)) :=
+  (sortIds spec).map fun r => (r, sel.lookup r)
+
+def superrunKey {κ : Type} (H : List (String × Option (Int × Int)) → Bool → κ) (name : String) (spec : List String)
+    (sel : Sel) (combining : Bool) : Key κ :=
+  (name, H (tagged sel spec) combining)
 
 /-! ### the plugin chain -/
 
@@ -196,9 +205,40 @@ def subrunStored (w : World) (rid : String) (j : Nat) : Except Err (List Chunk) 
       saved.mapM reload
   | _, _ => throw Err.other
 
+/-- `StorageBackend.apply_time_range` on one loaded chunk: cut off what lies before the window (moving the cut
+back to the closest admissible time) and what lies after it (keeping everything when a row straddles the end) -/
+def trimStart (tr : Int × Int) (c : Chunk) : Except Err Chunk :=
+  if c.start < tr.1 then c.split tr.1 true >>= fun p => pure p.2 else pure c
+
+def trimEnd (tr : Int × Int) (c : Chunk) : Except Err Chunk :=
+  if c.stop > tr.2 then
+    match c.split tr.2 false with
+    | .ok p => pure p.1
+    | .error .cannotSplit => pure c
+    | .error e => throw e
+  else pure c
+
+def applyTimeRange1 (tr : Int × Int) (c : Chunk) : Except Err Chunk := trimStart tr c >>= trimEnd tr
+
+/-- a loader with `time_range`: chunks that do not overlap the window are skipped, the others are trimmed -/
+def applyTimeRange (tr : Int × Int) : List Chunk → Except Err (List Chunk)
+  | [] => pure []
+  | c :: cs =>
+    if decide (c.stop ≤ tr.1) || decide (tr.2 ≤ c.start) then applyTimeRange tr cs
+    else do
+      let c' ← applyTimeRange1 tr c
+      let rest ← applyTimeRange tr cs
+      pure (c' :: rest)
+
+/-- the loader of one subrun as the concat loader sets it up: `time_range = sub_run_spec[subrun]` unless `"all"` -/
+def subrunLoaded (w : World) (sel : Sel) (rid : String) (j : Nat) : Except Err (List Chunk) :=
+  match sel.lookup rid with
+  | none => subrunStored w rid j
+  | some tr => subrunStored w rid j >>= applyTimeRange tr
+
 /-- `for x in ldrs: yield from x()` with `ldrs` in `sub_run_spec` order -/
-def concatLoader (w : World) (spec : List String) (j : Nat) : Except Err (List Chunk) := do
-  let per ← spec.mapM fun rid => subrunStored w rid j
+def concatLoader (w : World) (spec : List String) (sel : Sel) (j : Nat) : Except Err (List Chunk) := do
+  let per ← spec.mapM fun rid => subrunLoaded w sel rid j
   pure per.flatten
 
 /-! ### `get_components` / processing of a superrun -/
@@ -209,16 +249,17 @@ abbrev Store (κ : Type) := List ((Key κ × String) × List Chunk)
 /-- `check_cache` walking down from the target (`rev` = levels `n, n-1, …, 0`): a stored level is loaded, a level
 that does not allow superruns (or any level when `combining`) is fed by the concat loader of the subruns, any
 other level is computed from the level below.  Result: base stream and the levels to compute (bottom first). -/
-def descend {κ : Type} [DecidableEq κ] (w : World) (spec : List String) (key : Key κ) (store : Store κ) (combining : Bool) :
+def descend {κ : Type} [DecidableEq κ] (w : World) (spec : List String) (sel : Sel) (key : Key κ) (store : Store κ)
+    (combining : Bool) :
     List Level → Except Err (List Chunk × List Level)
   | [] => throw Err.runtimeError                  -- a plugin without dependencies cannot allow superruns
   | lv :: below =>
     match store.lookup (key, lv.dataType) with
     | some cs => do pure (← cs.mapM reload, [])
     | none =>
-      if !lv.allow || combining then do pure (← concatLoader w spec below.length, [])
+      if !lv.allow || combining then do pure (← concatLoader w spec sel below.length, [])
       else do
-        let (b, above) ← descend w spec key store combining below
+        let (b, above) ← descend w spec sel key store combining below
         pure (b, above ++ [lv])
 
 /-- run the levels to compute over the base stream; every level's output, bottom first -/
@@ -248,26 +289,28 @@ def storeAfter {κ : Type} (argmin0 : Int) (key : Key κ) (runId : String) (writ
 
 /-- `get_iter(superrun, target = level n, combining=…)` with `write_superruns = write`: the yielded chunks and
 the storage afterwards. -/
-def superGet {κ : Type} [DecidableEq κ] (H : List String → Bool → κ) (w : World) (spec : List String) (store : Store κ) (n : Nat)
+def superGet {κ : Type} [DecidableEq κ] (H : List (String × Option (Int × Int)) → Bool → κ) (w : World) (spec : List String)
+    (sel : Sel) (store : Store κ) (n : Nat)
     (combining write : Bool) : Except Err (List Chunk × Store κ) :=
   match w.levels[n]? with
   | none => throw Err.keyError
   | some top =>
     if !top.allow then throw Err.valueError       -- "Plugin … does not allowed superrun!"
     else
-      descend w spec (superrunKey H w.superName spec combining) store combining (w.levels.take (n + 1)).reverse
+      descend w spec sel (superrunKey H w.superName spec sel combining) store combining (w.levels.take (n + 1)).reverse
         >>= fun p =>
       runLevels w.superName p.2 p.1 >>= fun outs =>
       -- `get_iter` wraps the processor's generator in `continuity_check`
       Superrun.continuityCheck (topOutput outs p.1) >>= fun _ =>
-      storeAfter w.argmin0 (superrunKey H w.superName spec combining) w.superName write outs store >>= fun store =>
+      storeAfter w.argmin0 (superrunKey H w.superName spec sel combining) w.superName write outs store >>= fun store =>
       pure (topOutput outs p.1, store)
 
 /-- `is_stored(superrun, level n)` under the current definition -/
-def isStored {κ : Type} [DecidableEq κ] (H : List String → Bool → κ) (w : World) (spec : List String) (store : Store κ) (n : Nat)
+def isStored {κ : Type} [DecidableEq κ] (H : List (String × Option (Int × Int)) → Bool → κ) (w : World) (spec : List String)
+    (sel : Sel) (store : Store κ) (n : Nat)
     (combining : Bool) : Bool :=
   match w.levels[n]? with
   | none => false
-  | some lv => (store.lookup (superrunKey H w.superName spec combining, lv.dataType)).isSome
+  | some lv => (store.lookup (superrunKey H w.superName spec sel combining, lv.dataType)).isSome
 
 end Strax.Superrun
